@@ -19,6 +19,7 @@ import (
 	"strconv"
 	"strings"
 	"testing"
+	"time"
 
 	"github.com/gabriel-vasile/mimetype/internal/charset"
 	vjson "github.com/gabriel-vasile/mimetype/internal/json"
@@ -55,7 +56,7 @@ func TestMain(m *testing.M) {
 			if strings.TrimSpace(line) == "" {
 				continue
 			}
-			fmt.Fprintln(out, vfExec(line))
+			fmt.Fprintln(out, vfExecT(line))
 			out.Flush()
 		}
 	default:
@@ -310,9 +311,32 @@ type vfGen struct {
 }
 
 func (g *vfGen) emit(op string) {
-	fmt.Fprintln(g.out, vfExec(op))
+	fmt.Fprintln(g.out, vfExecT(op))
 	g.n++
+	if vfTimeouts > 5 {
+		g.out.Flush()
+		fmt.Fprintln(os.Stderr, "too many timeouts, giving up")
+		os.Exit(4)
+	}
 }
+
+var vfTimeouts int
+
+// vfExecT runs one operation with a watchdog: an operation that does not return is
+// reported as TIMEOUT (the stuck goroutine is abandoned).
+func vfExecT(op string) string {
+	ch := make(chan string, 1)
+	go func() { ch <- vfExec(op) }()
+	select {
+	case r := <-ch:
+		return r
+	case <-time.After(vfOpTimeout):
+		vfTimeouts++
+		return op + " => TIMEOUT"
+	}
+}
+
+var vfOpTimeout = 20 * time.Second
 
 func (g *vfGen) pick(q, t int) int {
 	if g.thorough {
